@@ -2,7 +2,7 @@
 
 use super::registry::*;
 use crate::engine::*;
-use serde_json::json;
+use serde_json::{json, Value as J};
 
 fn alphabet() -> Vec<Action> {
     let mut a = Vec::new();
@@ -25,6 +25,43 @@ fn alphabet() -> Vec<Action> {
     a
 }
 
+
+/// COM_STMT_CLOSE carries a 4-byte id; bytes behind it are ignored by real servers. A close with
+/// trailing bytes is still a close: exactly one on_close with that id, no reply, the id is gone.
+struct OverlongClose;
+impl Family for OverlongClose {
+    fn name(&self) -> String {
+        "close-with-trailing-bytes".into()
+    }
+    fn len(&self) -> u64 {
+        6
+    }
+    fn run(&self, idx: u64, st: &mut Stats) -> Result<(), Violation> {
+        use crate::refwire::*;
+        st.nontrivial += 1;
+        st.bump("overlong_closes");
+        let extra: &[u8] = [&b"\0"[..], b"\x01\x02\x03\x04", b"trailing bytes of some length"][(idx % 3) as usize];
+        let mut close1 = cmd_close(1);
+        close1.extend_from_slice(extra);
+        let mut close7 = cmd_close(7); // never prepared
+        close7.extend_from_slice(extra);
+        let payloads = if idx < 3 {
+            vec![with_byte(COM_STMT_PREPARE, b"id=1 p=0"), cmd_execute(1, 0, 1, &[]), close1, close7, with_byte(COM_STMT_PREPARE, b"id=1 p=0"), cmd_execute(1, 0, 1, &[])]
+        } else {
+            // the closed id must be dead afterwards
+            vec![with_byte(COM_STMT_PREPARE, b"id=1 p=0"), close1, cmd_execute(1, 0, 1, &[])]
+        };
+        run_payloads(&payloads, &[], st).map(|_| ()).map_err(|mut v| {
+            v.msg = format!("COM_STMT_CLOSE followed by {} more bytes: {}", extra.len(), v.msg);
+            v
+        })
+    }
+    fn describe(&self, idx: u64) -> J {
+        let tb = [1, 4, 29][(idx % 3) as usize];
+        json!({"trailing_bytes": tb, "then": if idx < 3 { "re-prepare and execute" } else { "execute the closed id (must end the connection)" }})
+    }
+}
+
 pub fn build(quick: bool) -> Check {
     let alpha = alphabet();
     let mut families: Vec<Box<dyn Family>> = Vec::new();
@@ -40,13 +77,14 @@ pub fn build(quick: bool) -> Check {
         max_states: if quick { 3000 } else { 200_000 },
     }));
     families.push(Box::new(Histories { label: "lifecycle".into(), hists: scale_lifecycle() }));
+    families.push(Box::new(OverlongClose));
     if !quick {
         families.push(Box::new(Histories { label: "lifecycle-volume".into(), hists: scale_volume() }));
     }
     Check {
         id: "C10",
         level: "model_checking",
-        rule: format!("histories over {} actions: PREPARE(id 1|2, 0..2 params, accepted|rejected), EXECUTE(id 1|2|3(never prepared), bind|reuse), LONG_DATA (with data and empty), CLOSE. (1) the full history tree to depth {} from a fresh connection, no abstraction; (2) BFS over reference-model states (registry map) where every transition is validated by re-running the implementation on witness+action, from two different witnesses per state when two were found. Oracle per history: complete callback log, run_on result and strictly decoded replies equal the registry model (dead ids never reach the shim and end the connection with Err, every CLOSE -> exactly one on_close and no reply bytes, re-prepare resets parameter count/types/long data). (3) long histories: 8..1000 open statements, one long-lived statement next to 6..600 prepare/execute/close cycles; statements of 9..300 parameters closed and re-prepared under the same or another id; thorough: 120 MB of long data discarded by re-preparing an open id. Non-trivial = history not pruned as a duplicate.", alpha.len(), if quick {5} else {7}),
+        rule: format!("histories over {} actions: PREPARE(id 1|2, 0..2 params, accepted|rejected), EXECUTE(id 1|2|3(never prepared), bind|reuse), LONG_DATA (with data and empty), CLOSE. (1) the full history tree to depth {} from a fresh connection, no abstraction; (2) BFS over reference-model states (registry map) where every transition is validated by re-running the implementation on witness+action, from two different witnesses per state when two were found. Oracle per history: complete callback log, run_on result and strictly decoded replies equal the registry model (dead ids never reach the shim and end the connection with Err, every CLOSE -> exactly one on_close and no reply bytes, re-prepare resets parameter count/types/long data). (3) long histories: 8..1000 open statements, one long-lived statement next to 6..600 prepare/execute/close cycles; statements of 9..300 parameters closed and re-prepared under the same or another id; COM_STMT_CLOSE packets with 1..29 trailing bytes; thorough: 120 MB of long data discarded by re-preparing an open id. Non-trivial = history not pruned as a duplicate.", alpha.len(), if quick {5} else {7}),
         assumptions: vec![
             "an EXECUTE that reuses types when none were ever bound for the (re-)prepared statement is treated as connection-ending (it cannot be decoded)".into(),
             "BFS merging assumes hidden implementation state is a function of the model state; tested with two witnesses per state and not assumed at all by the tree".into(),
